@@ -97,7 +97,7 @@ def _case(draw, tier):
             "fperm_seed": draw(st.integers(0, 2**16)),
             "rule": draw(st.sampled_from(RULES)),
         }
-    face = draw(facegen.convex_face(max_class=3))
+    face = draw(facegen.convex_face(max_class=3, tiny=True))
     k = len(face["lonlat"])
     n_orders = 3 if tier == "quick" else 6
     c = {
@@ -109,6 +109,7 @@ def _case(draw, tier):
         "quat": [draw(st.floats(-1, 1)) for _ in range(4)],
         "split": sorted(draw(st.lists(st.integers(0, k - 1), min_size=2, max_size=2, unique=True))) if k >= 4 else None,
         "history": draw(st.lists(st.tuples(st.sampled_from(RULES), st.booleans(), st.sampled_from(["compute", "total"])), max_size=3)),
+        "read_cached_first": draw(st.booleans()),
     }
     return c
 
@@ -127,6 +128,8 @@ def classify(case):
     vs = facegen.face_vectors(f)
     k = len(vs)
     labs = ["kind:face", f"corners:{k}", "size:" + facegen.size_class(vs), "centre:" + f["how"], "shape:" + f["shape"]]
+    if facegen.diameter_deg(vs) < 0.05:
+        labs.append("tiny-face(<0.05deg)")
     lons = [p[0] for p in f["lonlat"]]
     am = any(abs(lons[i] - lons[(i + 1) % k]) > 180 for i in range(k))
     if am:
@@ -180,6 +183,9 @@ def _run_face(case, ctx):
 
     base = list(range(k))
     g = _grid(ll, [base])
+    if case.get("read_cached_first"):
+        # history: the cached default areas / jacobian exist before any other rule or order is asked for
+        _ = g.face_areas.values, g.face_jacobian
     a_def = float(_area(g)[0])
 
     ctx.ev("nonnegative")
